@@ -133,7 +133,8 @@ Section Dup.
   Ltac expose' :=
     cbn [tm_wait_all tm_wait_one fst snd];
     try rewrite gen_resolve_agrees.
-  Ltac norm_conds' := rewrite ?pos_len2, ?pos_len, ?len_zero, ?subpairs_nil.
+  Ltac norm_conds' := rewrite ?pos_len2, ?pos_len, ?len2_zero, ?len_zero, ?zero_len2, ?zero_len, ?one_le_len2, ?one_le_len,
+                              ?len2_lt_one, ?len_lt_one, ?len2_le_zero, ?len_le_zero, ?subpairs_nil.
   Ltac bool_tauto' := repeat match goal with |- context [is_nil ?l] => destruct (is_nil l) end; reflexivity.
   Ltac align_cond' :=
     match goal with
